@@ -220,6 +220,58 @@ fn c04(out: &mut Out, thorough: bool) {
     }
     out.bounded("C04/subscribers: notified <=> documented relation (all patterns registered together)", &format!("patterns over {{a,b,'',?,#}} up to depth {pdepth} x keys over {{a,b,''}} up to depth 4"), cases2, nontrivial2);
 
+    // registrations are independent: unsubscribing (or removing) one subscriber leaves every other one in place
+    let short: Vec<usize> = pats.iter().enumerate().filter(|(_, p)| p.len() <= 2).map(|(i, _)| i).collect();
+    let mut cases3 = 0;
+    for (round, &gone) in short.iter().enumerate() {
+        let mut subs = Subscribers::default();
+        let mut handles = vec![];
+        for (i, p) in pats.iter().enumerate() {
+            let ks = to_ks(p);
+            let sub = Subscriber::new(SubscriptionId::new(client, i as u64), ks.clone(), EventSender::PState(tx.clone()), false);
+            if i == gone { handles.push(sub.clone()); }
+            subs.add_subscriber(&ks, sub);
+        }
+        let removed = if round % 2 == 0 { subs.unsubscribe(&to_ks(&pats[gone]), &SubscriptionId::new(client, gone as u64)) } else { subs.remove_subscriber(handles.remove(0)); true };
+        if !removed { out.report("C04/unsubscribe of a registered subscription succeeds", Some("UNLISTED"), json!({"pattern": pat_str(&pats[gone])})); }
+        for k in &keys {
+            cases3 += 1;
+            let got = subs.get_subscribers(k);
+            let mut ids: BTreeSet<u64> = BTreeSet::new();
+            for s in &got {
+                let d = format!("{s:?}");
+                if let Some(pos) = d.find("transaction_id: ") {
+                    let num: String = d[pos + 16..].chars().take_while(|c| c.is_ascii_digit()).collect();
+                    ids.insert(num.parse().unwrap_or(u64::MAX));
+                }
+            }
+            for (i, p) in pats.iter().enumerate() {
+                let g = ids.contains(&(i as u64));
+                let want = i != gone && wb_match(p, k);
+                if g != want && (i == gone || classify_match(p, k, g, "subs") == Some("UNLISTED")) {
+                    out.report("C04/after one unsubscribe every other subscriber is still notified <=> its pattern matches; the removed one never", Some("UNLISTED"),
+                        json!({"unsubscribed": pat_str(&pats[gone]), "pattern": pat_str(p), "key": k.join("/"), "notified": g}));
+                }
+            }
+        }
+    }
+    out.bounded("C04/subscribers: unsubscribe / remove_subscriber leave the other registrations intact", "every pattern of depth <= 2 removed in turn from a tree holding all patterns; all keys re-checked", cases3, cases3);
+    // leaves: the two parsers (keys: parse_segments, patterns: KeySegment::parse) against `split('/')` + seg_of
+    let mut np = 0;
+    for w in words(&["a", "", "?", "#", "ab"], 1, 3) {
+        let txt = w.join("/");
+        np += 1;
+        let want: Vec<KeySegment> = txt.split('/').map(|x| match x { "?" => KeySegment::Wildcard, "#" => KeySegment::MultiWildcard, o => KeySegment::Regular(o.to_owned()) }).collect();
+        if KeySegment::parse(&txt) != want {
+            out.report("leaf KeySegment::parse(pattern) == split('/') mapped by seg_of", Some("UNLISTED"), json!({"input": txt, "got": format!("{:?}", KeySegment::parse(&txt))}));
+        }
+        let lit = w.iter().all(|x| x != "?" && x != "#");
+        match parse_segments(&txt) {
+            Ok(segs) => if !lit || segs != w { out.report("leaf parse_segments(key) == split('/') and rejects wildcards", Some("UNLISTED"), json!({"input": txt, "got": format!("{segs:?}")})); },
+            Err(_) => if lit { out.report("leaf parse_segments(key) == split('/') and rejects wildcards", Some("UNLISTED"), json!({"input": txt, "got": "Err"})); },
+        }
+    }
+    out.bounded("leaves KeySegment::parse / parse_segments against split('/')", "all strings of 1..3 segments over {a,'',?,#,ab}", np, np);
     // leaf: KeySegment::from(&str) (str-literal match is opaque to Verus)
     let mut n = 0;
     for s in ["?", "#", "", "a", "??", "#?", "?#", "a?", "$SYS", "\u{e4}", "/"] {
@@ -543,6 +595,11 @@ fn c06(out: &mut Out, thorough: bool) {
                     if rx.try_recv() != Err(TryRecvError::Empty) { return Some(json!({"step": step, "what": "a waiting request was confirmed or cancelled although its client is not the holder", "key": k})); }
                 } } }
                 if !store.verif_locks_clean() { return Some(json!({"step": step, "what": "lock tree holds empty nodes (next unlock trips the is_clean debug assertion)"})); }
+                for k in 0..2 {
+                    let got = store.verif_lock_state(&keys[k]);
+                    let want = holder[k].map(|h| (ids[h], queue[k].iter().map(|e| ids[e.0]).collect::<Vec<_>>()));
+                    if got != want { return Some(json!({"step": step, "what": "holder / waiting clients of the key", "key": k, "got": format!("{got:?}"), "want": format!("{want:?}")})); }
+                }
             }
             None
         })));
@@ -570,7 +627,8 @@ enum Req {
     Import(&'static str),
 }
 
-const IMPORTS: [&str; 4] = [
+const IMPORTS: [&str; 5] = [
+    r#"{"data":{"t":{"a":{"v":7,"t":{"a":{"v":1},"b":{"v":2}}}}}}"#,
     r#"{"data":{"t":{"a":{"v":7}}}}"#,
     r#"{"data":{"t":{"a":{"t":{"b":{"v":{"Cas":[1,5]}}}},"i":{"t":{"x":{"v":3}}}}}}"#,
     r#"{"data":{"t":{"b":{"v":0},"a":{"t":{"a":{"t":{"b":{"v":9}}}}}}}}"#,
@@ -594,10 +652,10 @@ fn import_entries(v: &Value, path: &mut Vec<String>, out: &mut Vec<(Vec<String>,
     }
 }
 
-const KEYS: [&str; 5] = ["a", "b", "a/a", "a/b", "a/a/b"];
-const PATS: [&str; 9] = ["#", "a/#", "?", "a/?", "?/?", "a/?/b", "?/#", "a/#/b", "c/#/b"];
+const KEYS: [&str; 6] = ["a", "b", "a/a", "a/b", "a/a/b", "a/"];
+const PATS: [&str; 11] = ["#", "a/#", "?", "a/?", "?/?", "a/?/b", "?/#", "a/#/b", "c/#/b", "a/", "?/"];
 const PARENTS: [&str; 4] = ["a", "a/a", "b", "c"];
-const PLS: [&str; 4] = ["?", "a/?", "?/?", "a"];
+const PLS: [&str; 5] = ["?", "a/?", "?/?", "a", "a/"];
 
 fn expect_code(e: &WorterbuchError) -> String {
     format!("{:?}", code_of(e))
@@ -622,6 +680,9 @@ impl Harness {
                 let first = rx.try_recv().unwrap_or_default();
                 ls_rx.push((p, rx, first));
             }
+            // a second subscriber of `a` whose session has gone away without unsubscribing (receiver dropped)
+            let (dead_rx, _) = wb.subscribe_ls(ClientId::from_u128(43), 200, Some("a".to_owned())).await.expect("subscribe_ls");
+            drop(dead_rx);
         }
         Harness { wb, model: Model::default(), client, ls_rx }
     }
